@@ -1,12 +1,11 @@
 //! lcov 2.x exception branches (second review, item 4): `BRDA:<line>,e<block>,<branch>,<taken>`.
-//! Generated ASTs (the generator of corrlib::lcov) in which some BRDA records carry the `e` flag
-//! are rendered and parsed. ORACLE: what the records say (`sem`: the flag changes nothing – branch
-//! `<branch>` of the line, taken iff the count is positive), with branch parsing on and off.
-//! The reader misreads such a record (block digits become the branch number, the record counts as
-//! taken): every failure of the oracle is matched precisely – the implementation's answer must be
-//! the independent prediction `sem_read` of that misreading (Lean: `Spec.semRead`,
-//! `C04_reader_on_lcov2`) – and then carries the finding id C04-lcov2-exception-branch; any other
-//! difference is an unnamed failure. All inputs also go to the model tie (`Lcov.parse` = code).
+//! Generated ASTs (the generator of corrlib::lcov) in which about half of the BRDA records carry
+//! the `e` flag are rendered and parsed. ORACLE: what the records say (`sem`: the flag changes
+//! nothing – branch `<branch>` of the line, taken iff the count is positive), with branch parsing on
+//! and off. (Before /repo 66f7aba the reader took the block digits for the branch number and the
+//! record for taken: former finding C04-lcov2-exception-branch; `sem_read` below is that old
+//! reading, kept only to count how many generated cases distinguish the two.) All inputs also go to
+//! the model tie (`Lcov.parse` = code).
 use corrlib::lcov::*;
 use corrlib::*;
 use grcov::CovResult;
@@ -53,7 +52,7 @@ pub fn render_exc(secs: &[ExcSection], crlf: bool) -> Vec<u8> {
     out
 }
 
-/// the reader's view: an exception branch record counts as "branch <block> of the line, taken"
+/// the reading before the fix: an exception branch record counted as "branch <block> of the line, taken"
 pub fn sem_read(s: &ExcSection, branch: bool) -> CovResult {
     let mut t = s.sec.clone();
     for (i, r) in t.recs.iter_mut().enumerate() {
@@ -66,41 +65,24 @@ pub fn sem_read(s: &ExcSection, branch: bool) -> CovResult {
     sem(&t, branch)
 }
 
-/// the tracefile has a BRDA line whose block field is `e<digits>`
-pub fn has_exception_branch(bytes: &[u8]) -> bool {
-    bytes.split(|&c| c == b'\n').any(|l| {
-        let Some(rest) = l.strip_prefix(b"BRDA:") else { return false };
-        let mut f = rest.splitn(4, |&c| c == b',');
-        let (Some(a), Some(b), Some(_), Some(_)) = (f.next(), f.next(), f.next(), f.next()) else { return false };
-        !a.is_empty()
-            && a.iter().all(u8::is_ascii_digit)
-            && b.len() >= 2
-            && b[0] == b'e'
-            && b[1..].iter().all(u8::is_ascii_digit)
-    })
-}
-
-pub const FINDING: &str = "C04-lcov2-exception-branch";
-
 fn show(rs: &[(String, CovResult)]) -> String {
     format!("ok {}", show_results_ordered(rs)).trim_end().to_string()
 }
 
 pub fn check(rep: &mut Report, secs: &[ExcSection], crlf: bool, branch: bool, got: &str, bytes: &[u8]) {
     let spec = show(&secs.iter().map(|s| (s.sec.sf.clone(), sem(&s.sec, branch))).collect::<Vec<_>>());
-    let view = show(&secs.iter().map(|s| (s.sec.sf.clone(), sem_read(s, branch))).collect::<Vec<_>>());
+    let old = show(&secs.iter().map(|s| (s.sec.sf.clone(), sem_read(s, branch))).collect::<Vec<_>>());
+    rep.count(if spec == old { "exc.old_reading_coincides" } else { "exc.old_reading_differs" });
     if got == spec {
-        rep.count(if spec == view { "exc.faithful.views_coincide" } else { "exc.faithful" });
         return;
     }
-    let finding = if branch && has_exception_branch(bytes) && got == view { Some(FINDING) } else { None };
-    rep.count(if finding.is_some() { "exc.misread_as_predicted" } else { "exc.other_difference" });
+    rep.count(if got == old { "exc.misread_as_before_the_fix" } else { "exc.other_difference" });
     rep.fail(
         "oracle",
-        finding,
+        None,
         "a tracefile with lcov 2.x exception branches BRDA:<line>,e<block>,<branch>,<taken> is not read to what its records say".into(),
         json!({"op": "lcov.fidelity", "branch": branch, "crlf": crlf, "tracefile_hex": hex(bytes),
-               "tracefile": String::from_utf8_lossy(bytes), "impl": got, "spec": spec, "reader_view": view}),
+               "tracefile": String::from_utf8_lossy(bytes), "impl": got, "spec": spec}),
     );
 }
 
